@@ -9,8 +9,10 @@ FAMILY = ["euclidean", "squared_euclidean", "average_euclidean", "log_euclidean"
 
 def tie_free_points(rng, n, m, metric):
     dim = rng.randint(1, 4)
+    # the algorithms are order-only, so the scale of the features must not matter: a third of the sets are tiny
+    sc = rng.choice([1.0, 1.0, 1e-6, 1e-11])
     for _ in range(100):
-        X = [[rng.uniform(-10, 10) for _ in range(dim)] for _ in range(n + m)]
+        X = [[sc * rng.uniform(-10, 10) for _ in range(dim)] for _ in range(n + m)]
         D = metric_matrix(metric, X)
         tr = [D[a][b] for a in range(n) for b in range(a + 1, n)]
         allv = tr + [D[a][q] for a in range(n) for q in range(n, n + m)]
